@@ -392,7 +392,9 @@ pub fn apply_edit(world: &mut World, t: &mut Tape, prof: &Profile) -> Option<Str
         }
         10 => {
             // change what a command includes; only possible together with a change of something it already reads
-            let cands: Vec<&Step> = world.disk.steps.iter().filter(|s| s.deps != 0).collect();
+            // (a step whose pending manifest text no longer has the depfile/deps binding cannot start to include
+            // headers: n2 would have no way to learn about them)
+            let cands: Vec<&Step> = world.disk.steps.iter().filter(|s| s.deps != 0 && world.next.as_ref().map(|n| n.step(s.uid).map(|ns| ns.deps != 0).unwrap_or(false)).unwrap_or(true)).collect();
             let s = (*cands.get(pickn(a, cands.len()))?).clone();
             let trig: Vec<String> = s.ins.iter().chain(&s.imp).chain(&world.true_includes(s.uid)).filter(|f| world.disk.producer(f).is_none() && exists(f) && *f != "gen.in").cloned().collect();
             let tr = trig.get(pickn(b, trig.len()))?.clone();
